@@ -13,6 +13,7 @@
 From Coq Require Import Permutation Sorting.Sorted.
 From CNV Require Import Base.Prelude Base.Str Gen.Params Gen.CoverageDefaults Model.Chromsort
   Model.Coverage Spec.Coverage Proofs.Coverage Gen.FnCoverage Proofs.FnCoverage.
+From CNV Require Gen.FnCoverageLoop Proofs.FnCoverageLoop.
 
 (* the generated constants the statements below rely on *)
 Example C09_null_log2_is_minus_20 : NULL_LOG2_COVERAGE = (-20 # 1)%Q := eq_refl.
@@ -309,3 +310,17 @@ Example C09_supplementary_counted : counted 0 (mkRead "chr1" 2048 0 100 [(0, 50)
 Proof. reflexivity. Qed.
 Example C09_paired_counted : counted 30 (mkRead "chr1" (1 + 2 + 32 + 64 + 2048) 30 100 [(0, 50)]) = true.
 Proof. reflexivity. Qed.
+
+(* ---- loop tie: ONE ITERATION of region_depth_count's `for read in bamfile.fetch(...)` loop, translated from the
+   Python source on every run (Gen/FnCoverageLoop.v fn_read_step) *)
+Theorem C09_source_read_step : forall count bases passes rb,
+  Gen.FnCoverageLoop.fn_read_step count bases passes rb = if passes then (count + 1, bases + rb) else (count, bases).
+Proof. exact Proofs.FnCoverageLoop.source_read_step. Qed.
+
+(* ... and the step folded over the reads the fetch hands over (those of the contig), from (0, 0), gives the number
+   of counted reads and the model's base count *)
+Theorem C09_source_read_loop : forall cut c lo hi reads,
+  Proofs.FnCoverageLoop.read_loop cut lo hi (filter (on_contig c) reads) (0, 0)
+  = (Z.of_nat (length (filter (fun r => on_contig c r && counted cut r) reads)),
+     bases_count cut c lo hi reads).
+Proof. exact Proofs.FnCoverageLoop.source_read_loop. Qed.
